@@ -421,6 +421,8 @@ def gen_class(w: World, cid: int) -> ClassSpec:
         alias = name.lstrip("_")
         untyped = kind not in ("dataclass", "td") and rng.random() < p.get("untyped", 0.08)
         t = None if untyped else gen_type(w, p.get("depth", 3), cid)
+        if kind == "td" and rng.random() < 0.2:
+            t = ("any",)
         if hash_cls:
             t = gen_type(w, 1, cid, hashable=True)      # a frozen class usable as set element / mapping key
         # a recursive reference (attrs only): Optional[Self] or List[Self]
